@@ -26,7 +26,7 @@ type runRes struct {
 	counts    []string
 }
 
-func normTag(p []byte) []byte { return []byte(strings.ReplaceAll(string(p), "7365743a", "73756d3a")) }
+func normTag(p []byte) []byte { return sys.NormTag(p) }
 
 func nonEmpty(r *sys.Result) string {
 	var p []string
@@ -151,7 +151,12 @@ func scenario(seed uint64, idx int, tier string, root string, fixed string, enc 
 		for _, f := range sys.CacheFiles(d) {
 			if want, ok := cleanContent[f]; ok {
 				if got := sys.DecodeFile(d, f); got != want {
-					rr.fails = append(rr.fails, [2]string{"C07/leftover-file-differs", fmt.Sprintf("file %s: clean run %.200s || after running on subset %v: %.200s", f, want, chosen, got)})
+					if string(sys.NormTag([]byte(got))) == string(sys.NormTag([]byte(want))) {
+						// only the raw set:/sum: tag of a set_sum value differs (squashed vs sequentially built store)
+						rr.fails = append(rr.fails, [2]string{"C07/set_sum-tag-in-leftover-file", fmt.Sprintf("file %s: clean run %.200s || after running on subset %v: %.200s", f, want, chosen, got)})
+					} else {
+						rr.fails = append(rr.fails, [2]string{"C07/leftover-file-differs", fmt.Sprintf("file %s: clean run %.200s || after running on subset %v: %.200s", f, want, chosen, got)})
+					}
 				}
 			}
 		}
@@ -170,7 +175,7 @@ func scenario(seed uint64, idx int, tier string, root string, fixed string, enc 
 		rr := runRes{line: fmt.Sprintf("%s | after-aborted-request job=%d", base, job), nt: len(left) > 0, counts: []string{"aborted:" + ab.ErrClass(), fmt.Sprintf("aborted-left-files:%d", min(len(left), 20))}}
 		for _, f := range left {
 			if want, ok := cleanContent[f]; ok {
-				if got := sys.DecodeFile(d, f); got != want {
+				if got := sys.DecodeFile(d, f); string(sys.NormTag([]byte(got))) != string(sys.NormTag([]byte(want))) {
 					rr.fails = append(rr.fails, [2]string{"C07/half-written-file-taken-for-complete", fmt.Sprintf("request aborted in job %d left %s = %.200s || clean run: %.200s", job, f, got, want)})
 				}
 			}
